@@ -183,40 +183,48 @@ def _series(chk):
 
     def th():
         nonlocal g_alg
-        N = 4
-        keepH = {2: {0, 7, 12, 20}, 3: {1, 9, 30, 44}, 4: {5, 60, 100}}
-        keepG = {3: {2, 17, 33, 50}}
-        names = [n for d in keepH for n in polyx.gen_names("a", [d])] + polyx.gen_names("g", [3])
-        alg = RingAlg(names, True)
-        g_alg = alg
-        with exact(alg):
-            H = List()
-            for d in range(N + 1):
-                if d in keepH:
-                    H.append(_blk(alg, "a", d, keepH[d]))
-                else:
+        # (N, deg G, support of H per degree, support of G): the operands' coefficients are symbolic; the higher truncation
+        # degrees need N-2 (cubic G) resp. (N-2)/2 (quartic G) iterated brackets - a series cut too early is visible there
+        cases = [(4, 3, {2: {0, 7, 12, 20}, 3: {1, 9, 30, 44}, 4: {5, 60, 100}}, {2, 17, 33, 50}),
+                 (6, 3, {2: {0, 7, 12}, 3: {1, 30}}, {2, 33}),
+                 (6, 4, {2: {0, 7, 12}, 3: {9}}, {5, 60})]
+        for N, dG, keepH, keepG in cases:
+            names = [n for d in keepH for n in polyx.gen_names("a", [d])] + polyx.gen_names("g", [dG])
+            alg = RingAlg(names, True)
+            g_alg = alg
+            with exact(alg):
+                H = List()
+                for d in range(N + 1):
+                    if d in keepH:
+                        H.append(_blk(alg, "a", d, keepH[d]))
+                    else:
+                        z = _np.empty(len(mono(d)), dtype=object)
+                        z.fill(0)
+                        H.append(z.view(XArray))
+                G = _blk(alg, "g", dG, keepG)
+                hd, gd = polyx.list_to_dict(H), polyx.to_dict(G, dG)
+                want = spec_series(hd, gd, N)
+                if N > 4 and max(sum(k) for k in want) < N:
+                    raise RuntimeError("harness: the chosen sparse operands do not reach the truncation degree")
+                R = li._apply_poly_transform(H, G, dG, N, psi, clmo, enc, 1e-30)
+                ok, k = polyx.d_equal(polyx.list_to_dict(R), want)
+                if not ok:
+                    raise Refuted(f"_apply_poly_transform != sum_k ad_G^k(H)/k! truncated at {N} (deg G = {dG}): monomial {k} "
+                                  f"of degree {sum(k)}", "", inputs={"N": N, "deg_G": dG})
+                PG = List()
+                for d in range(N + 1):
                     z = _np.empty(len(mono(d)), dtype=object)
                     z.fill(0)
-                    H.append(z.view(XArray))
-            G3 = _blk(alg, "g", 3, keepG[3])
-            hd, gd = polyx.list_to_dict(H), polyx.to_dict(G3, 3)
-            R = li._apply_poly_transform(H, G3, 3, N, psi, clmo, enc, 1e-30)
-            ok, k = polyx.d_equal(polyx.list_to_dict(R), spec_series(hd, gd, N))
-            if not ok:
-                raise Refuted(f"_apply_poly_transform != sum_k ad_G^k(H)/k! truncated at {N}: monomial {k}", "")
-            PG = List()
-            for d in range(N + 1):
-                z = _np.empty(len(mono(d)), dtype=object)
-                z.fill(0)
-                PG.append(z.view(XArray))
-            PG[3] = G3.copy()
-            R2 = cl._apply_coord_transform(H, PG, N, psi, clmo, enc, 1e-30)
-            ok, k = polyx.d_equal(polyx.list_to_dict(R2), spec_series(hd, gd, N))
-            if not ok:
-                raise Refuted(f"_apply_coord_transform != sum_k ad_G^k(X)/k! truncated at {N}: monomial {k}", "")
-            ok, k = polyx.d_equal(polyx.list_to_dict(H), hd)
-            if not ok:
-                raise Refuted("series operator mutates its operand", str(k))
+                    PG.append(z.view(XArray))
+                PG[dG] = G.copy()
+                R2 = cl._apply_coord_transform(H, PG, N, psi, clmo, enc, 1e-30)
+                ok, k = polyx.d_equal(polyx.list_to_dict(R2), want)
+                if not ok:
+                    raise Refuted(f"_apply_coord_transform != sum_k ad_G^k(X)/k! truncated at {N} (deg G = {dG}): monomial {k}",
+                                  "", inputs={"N": N, "deg_G": dG})
+                ok, k = polyx.d_equal(polyx.list_to_dict(H), hd)
+                if not ok:
+                    raise Refuted("series operator mutates its operand", str(k))
     chk.obl("_apply_poly_transform and _apply_coord_transform == sum_(k) ad_G^k(.)/k! truncated at N (same bracket order and "
             "sign; every omitted term has degree > N); operands untouched", "K1 identity",
             [LI + ":_apply_poly_transform", CL + ":_apply_coord_transform"], "B3 exact ring normal form", th)
